@@ -73,8 +73,8 @@ Proof.
         eapply RTryJ; [apply IHb; [exact E1 | split; discriminate] | discriminate | discriminate
                       | apply IHb; [exact E3 | split; discriminate]].
       * (* raise *)
-        destruct (hsel th (dnat d1)) as [h|] eqn:Eh.
-        -- destruct (exec_block n h s1 (dtail d1)) as [[[tr2 o2] s2] d2] eqn:E2.
+        destruct (dispatch th d1) as [[h|] d1'] eqn:Eh.
+        -- destruct (exec_block n h s1 d1') as [[[tr2 o2] s2] d2] eqn:E2.
            assert (N2 : done o2) by (split; intros ->; injection H as _ <- _ _; congruence).
            assert (H' : (let '(tr3, of, s3, d3) := exec_block n tf s2 d2 in
                       match of with
@@ -86,7 +86,7 @@ Proof.
            pose proof (Dn _ _ _ _ _ _ _ _ H') as ->. injection H' as <- <- <- <-.
            eapply RTryH; [apply IHb; [exact E1 | split; discriminate] | exact Eh | apply IHb; [exact E2 | exact N2]
                          | apply IHb; [exact E3 | split; discriminate]].
-        -- destruct (exec_block n tf s1 (dtail d1)) as [[[tr3 of] s3] d3] eqn:E3.
+        -- destruct (exec_block n tf s1 d1') as [[[tr3 of] s3] d3] eqn:E3.
            pose proof (Dn _ _ _ _ _ _ _ _ H) as ->. injection H as <- <- <- <-.
            eapply RTryU; [apply IHb; [exact E1 | split; discriminate] | exact Eh
                          | apply IHb; [exact E3 | split; discriminate]].
